@@ -22,6 +22,7 @@ use concordium_base::{
         com_mult::{ComMult, ComMultSecret},
         common::{prove, verify, AndAdapter, ReplicateAdapter, SigmaProof, SigmaProtocol},
         dlog::{Dlog, DlogSecret},
+        enc_trans::{ElgDec, EncTrans, EncTransSecret},
         ps_sig_known::{PsSigKnown, PsSigMsg, PsSigWitness, PsSigWitnessMsg},
         vcom_eq::VecComEq,
     },
@@ -696,6 +697,158 @@ fn ps_sig_known_family<'a>(s: &rayon::Scope<'a>, report: &'a Report, cli: &'a Cl
     }
 }
 
+/// EncTrans with t chunks for the receiver and t' chunks for the sender (the production
+/// code only ever builds t = t' = 2): `S` encrypts `sum 2^(32 j) a_j + sum 2^(32 j) s'_j`.
+/// `bump`: the power of two added to the value encrypted in `S` (None = consistent).
+fn enc_trans_instance(seed: u64, t: usize, t2: usize, chunk_variant: usize, bump: Option<u32>) -> (EncTrans<C>, EncTransSecret<C>) {
+    use concordium_base::encrypted_transfers::proofs::gen_enc_trans_proof_info;
+    let mut r = rng(seed, 7900);
+    let sk = ElgSk::<C>::generate_all(&mut r);
+    let pk = ElgPk::from(&sk);
+    let sk_recv = ElgSk::<C>::generate(&pk.generator, &mut r);
+    let pk_recv = ElgPk::from(&sk_recv);
+    let h = C::generate(&mut r);
+    let chunk = |i: usize, salt: u64| -> u64 {
+        match chunk_variant {
+            0 => (rand::Rng::gen::<u32>(&mut rng(seed, 7910 + salt + i as u64))) as u64,
+            1 => 0,
+            2 => u32::MAX as u64,
+            // only the highest chunk is set
+            _ => 1,
+        }
+    };
+    let a: Vec<u64> = (0..t).map(|i| if chunk_variant == 3 && i + 1 != t { 0 } else { chunk(i, 0) }).collect();
+    let sp: Vec<u64> = (0..t2).map(|i| if chunk_variant == 3 && i + 1 != t2 { 0 } else { chunk(i, 100) }).collect();
+    let two32 = C::scalar_from_u64(1 << 32);
+    let combine = |xs: &[u64]| {
+        let mut sum = F::zero();
+        for x in xs.iter().rev() {
+            sum.mul_assign(&two32);
+            sum.add_assign(&C::scalar_from_u64(*x));
+        }
+        sum
+    };
+    let mut total = add(combine(&a), combine(&sp));
+    if let Some(k) = bump {
+        total = add(total, pow2::<C>(k));
+    }
+    let big_s = pk.encrypt_exponent_given_generator(&Value::<C>::new(total), &h, &mut r);
+    let enc = |key: &ElgPk<C>, xs: &[u64], r: &mut rand_chacha::ChaCha20Rng| -> (Vec<concordium_base::elgamal::Cipher<C>>, Vec<ComEqSecret<C>>) {
+        let mut cs = vec![];
+        let mut ss = vec![];
+        for x in xs {
+            let (c, er) = key.encrypt_exponent_rand_given_generator(&Value::<C>::from(*x), &h, r);
+            cs.push(c);
+            ss.push(ComEqSecret::<C> { r: Randomness::from_u64(*x), a: er.to_value() });
+        }
+        (cs, ss)
+    };
+    let (ca, sa) = enc(&pk_recv, &a, &mut r);
+    let (cs, ss) = enc(&pk, &sp, &mut r);
+    let d = gen_enc_trans_proof_info(&pk, &pk_recv, &big_s, &ca, &cs, &h);
+    (d, EncTransSecret { dlog_secret: Rc::new(sk.scalar), encexp1_secrets: sa, encexp2_secrets: ss })
+}
+
+fn clone_enc_trans(d: &EncTrans<C>) -> EncTrans<C> {
+    let ce = |x: &ComEq<C, C>| ComEq::<C, C> { commitment: x.commitment, y: x.y, cmm_key: x.cmm_key, g: x.g };
+    EncTrans { dlog: Dlog { public: d.dlog.public, coeff: d.dlog.coeff }, elg_dec: ElgDec { public: d.elg_dec.public, coeff: d.elg_dec.coeff }, encexp1: d.encexp1.iter().map(ce).collect(), encexp2: d.encexp2.iter().map(ce).collect() }
+}
+
+fn enc_trans_family<'a>(s: &rayon::Scope<'a>, report: &'a Report, cli: &'a Cli) {
+    let max = if cli.tier == Tier::Quick { 3 } else { 5 };
+    const CHUNKS: [&str; 4] = ["random", "0", "2^32-1", "only the highest chunk = 1"];
+    for t in 1..=max {
+        for t2 in 1..=max {
+            for cv in 0..4 {
+                // quick tier: the full alphabet on the square shapes and (1, max), (max, 1)
+                if cli.tier == Tier::Quick && cv != 0 && cv != 3 && t != t2 {
+                    continue;
+                }
+                let build = move |seed: u64| enc_trans_instance(seed, t, t2, cv, None);
+                let alts = move |d: &EncTrans<C>, seed: u64| {
+                    let mut out: Vec<(String, EncTrans<C>)> = vec![];
+                    for (l, p) in alt_points(&d.dlog.public, seed) {
+                        let mut x = clone_enc_trans(d);
+                        x.dlog.public = p;
+                        out.push((format!("dlog.public: {l}"), x));
+                    }
+                    for (l, p) in alt_points(&d.elg_dec.public, seed) {
+                        let mut x = clone_enc_trans(d);
+                        x.elg_dec.public = p;
+                        out.push((format!("elg_dec.public: {l}"), x));
+                    }
+                    for k in 0..2 {
+                        for (l, p) in alt_points(&d.elg_dec.coeff[k], seed) {
+                            let mut x = clone_enc_trans(d);
+                            x.elg_dec.coeff[k] = p;
+                            out.push((format!("elg_dec.coeff[{k}]: {l}"), x));
+                        }
+                    }
+                    // S shifted by every chunk weight: the linear relation no longer holds
+                    for k in 0..max.max(t).max(t2) + 1 {
+                        let mut x = clone_enc_trans(d);
+                        x.elg_dec.public = x.elg_dec.public.plus_point(&d.elg_dec.coeff[1].mul_by_scalar(&pow2::<C>(32 * k as u32)));
+                        out.push((format!("elg_dec.public: S_2 * h^(2^{})", 32 * k), x));
+                    }
+                    for (which, n) in [(1, d.encexp1.len()), (2, d.encexp2.len())] {
+                        fn get(x: &mut EncTrans<C>, which: usize) -> &mut Vec<ComEq<C, C>> { if which == 1 { &mut x.encexp1 } else { &mut x.encexp2 } }
+                        for i in 0..n {
+                            let cur = if which == 1 { &d.encexp1[i] } else { &d.encexp2[i] };
+                            for (l, p) in alt_points(&cur.commitment.0, seed) {
+                                let mut x = clone_enc_trans(d);
+                                get(&mut x, which)[i].commitment = Commitment(p);
+                                out.push((format!("encexp{which}[{i}].commitment: {l}"), x));
+                            }
+                            for (l, p) in alt_points(&cur.y, seed) {
+                                let mut x = clone_enc_trans(d);
+                                get(&mut x, which)[i].y = p;
+                                out.push((format!("encexp{which}[{i}].y: {l}"), x));
+                            }
+                            // one more unit in this chunk
+                            let mut x = clone_enc_trans(d);
+                            get(&mut x, which)[i].commitment = Commitment(cur.commitment.0.plus_point(&cur.cmm_key.h));
+                            out.push((format!("encexp{which}[{i}].commitment: chunk + 1"), x));
+                        }
+                        if n >= 2 {
+                            let mut x = clone_enc_trans(d);
+                            get(&mut x, which).swap(0, n - 1);
+                            out.push((format!("encexp{which}: first and last chunk swapped"), x));
+                        }
+                        let mut x = clone_enc_trans(d);
+                        get(&mut x, which).pop();
+                        out.push((format!("encexp{which}: last chunk dropped"), x));
+                        let mut x = clone_enc_trans(d);
+                        let l = clone_enc_trans(d);
+                        let last = if which == 1 { l.encexp1 } else { l.encexp2 }.pop().unwrap();
+                        get(&mut x, which).push(last);
+                        out.push((format!("encexp{which}: last chunk duplicated"), x));
+                    }
+                    out
+                };
+                spawn_check!(s, report, cli, "enc_trans", &format!("t={t} t'={t2} chunks={}", CHUNKS[cv]), build, alts);
+            }
+            // the honest prover on an inconsistent witness: S encrypts the chunk combination
+            // plus 2^(32 k), for every chunk position k (and one beyond)
+            s.spawn(move |_| {
+                for k in 0..=t.max(t2) {
+                    for tr in [Tr::Legacy, Tr::V1] {
+                        case(report, json!({"protocol": "enc_trans", "variant": format!("t={t} t'={t2}"), "false_witness": format!("S encrypts the combination + 2^{}", 32 * k), "transcript": format!("{tr:?}")}), || {
+                            let (d, sec) = enc_trans_instance(cli.seed, t, t2, 0, Some(32 * k as u32));
+                            if let Some(p) = prove_in(tr, "a", &d, sec, cli.seed) {
+                                report.trace(1);
+                                if verify_in(tr, "a", &d, &p) {
+                                    return fail("false-statement-verifies", json!({}));
+                                }
+                            }
+                            Ok(())
+                        });
+                    }
+                }
+            });
+        }
+    }
+}
+
 fn adapters<'a>(s: &rayon::Scope<'a>, report: &'a Report, cli: &'a Cli) {
     // AND of dlog and com_eq
     let build = |seed: u64| {
@@ -960,6 +1113,7 @@ pub fn run(cli: &Cli) -> ! {
             com_eq_sig_family(s, report, cli);
             ps_sig_known_family(s, report, cli);
             adapters(s, report, cli);
+            enc_trans_family(s, report, cli);
             s.spawn(move |_| com_ineq_checks(report, cli));
             s.spawn(move |_| transcript_framing(report, cli));
         });
@@ -972,7 +1126,7 @@ pub fn run(cli: &Cli) -> ! {
     report.sample(json!({"transcript_sequence": ["Label(c)", "MsgBytes([0])", "Each([0, 0])"]}));
     report.set_technique("exhaustive enumeration of statement shapes x witness alphabet x transcripts x contexts per protocol; for every valid instance the complete single-component perturbation set (each public field replaced by another element / identity / negation / double, vectors swapped / truncated / extended, every other context, the other transcript protocol, every bit of the challenge, every bit (quick: every 3rd beyond 768) of the response, another valid instance); explicit enumeration of all transcript operation sequences up to depth 3/4 for injectivity");
     report.set_rule("one case = one (protocol, variant, transcript, context) with all its perturbations; completeness must hold for every witness incl. 0, 1, r-1, repeated generators, vector sizes 0/1/2/5; every perturbation must be rejected");
-    report.assume("EncTrans is exercised through C12 (make_transfer_data / verify_transfer_data); DlogEqual and DlogAndAggregateDlogsEqual live in private, unused modules (not reachable through the public API)");
+    report.assume("EncTrans is enumerated for chunk counts t, t' in 1..3 (thorough 1..5); the production code only builds t = t' = 2 (covered end-to-end by C12); DlogEqual and DlogAndAggregateDlogsEqual live in private, unused modules (not reachable through the public API)");
     report.assume("soundness against an adaptive prover is a computational statement; only the enumerated perturbations are decided");
     report.assume("the legacy RandomOracle is documented not to length-prefix labels; for it only same-label/different-value sequences are claimed injective");
     report.finish(true, json!({"contexts": CONTEXTS.len(), "transcript_depth": if cli.tier == Tier::Quick { 3 } else { 4 }}));
